@@ -182,6 +182,15 @@ def main(argv):
         write_evidence(prop, tier, seed, None, time.time() - t0, error=repr(e))
         return 3
     known = load_known(prop)
+    # a CANDIDATE counter-model (found only after the complete solvers gave up, on weakened hypotheses) is reported as a violation
+    # only for an obligation whose proof on the unchanged tree is fast according to the ledger; otherwise it stays undecided
+    base_ms = ledger_times(prop)
+    for o in res.obligs:
+        if o.result == 'sat' and (o.reason or '').startswith('CANDIDATE'):
+            t = base_ms.get(o.name)
+            if t is None or t > 2000:
+                o.result = 'unknown'
+                o.reason = 'candidate counter-model only (baseline proof %s ms): undecided' % ('%.0f' % t if t is not None else 'unknown')
     failed = [o for o in res.obligs if o.result == 'sat']
     unknown = [o for o in res.obligs if o.result == 'unknown']
     discharged = [o for o in res.obligs if o.result == 'unsat']
@@ -241,6 +250,16 @@ def main(argv):
     return 0
 
 
+def ledger_times(prop):
+    p = os.path.join(VERIF, 'contracts', 'ledger.json')
+    if not os.path.exists(p):
+        return {}
+    with open(p) as f:
+        data = json.load(f)
+    ent = data.get(prop)
+    return ent if isinstance(ent, dict) else {}
+
+
 def check_ledger(prop, res):
     p = os.path.join(VERIF, 'contracts', 'ledger.json')
     names = sorted({o.name for o in res.obligs})
@@ -249,7 +268,10 @@ def check_ledger(prop, res):
         if os.path.exists(p):
             with open(p) as f:
                 data = json.load(f)
-        data[prop] = names
+        times = {}
+        for o in res.obligs:
+            times[o.name] = round(max(times.get(o.name, 0.0), o.ms), 1)
+        data[prop] = times
         with open(p, 'w') as f:
             json.dump(data, f, indent=0, sort_keys=True)
         return []
